@@ -224,29 +224,44 @@ def feasible(pc):
     return s.check() != z3.unsat
 
 
+def _conjuncts(g):
+    if z3.is_and(g):
+        out = []
+        for c in g.children():
+            out.extend(_conjuncts(c))
+        return out
+    return [g]
+
+
 def solve_vc(vc, axioms, timeout_ms, use_cvc5=False):
+    """unsat for every conjunct of the goal => 'unsat'.  Otherwise the first undecided conjunct is reported."""
     t0 = time.time()
-    s = z3.Solver()
-    s.set("timeout", timeout_ms)
-    s.add(axioms)
-    for h in vc.hyps:
-        s.add(h if isinstance(h, z3.ExprRef) else z3.BoolVal(bool(h)))
     g = vc.goal if isinstance(vc.goal, z3.ExprRef) else z3.BoolVal(bool(vc.goal))
-    s.add(z3.Not(g))
-    r = s.check()
     backend = "z3"
-    model = None
-    detail = ""
-    if r == z3.sat:
-        model = s.model()
-    elif r == z3.unknown:
-        detail = "z3: unknown (" + s.reason_unknown() + ")"
+    notes = []
+    for i, cj in enumerate(_conjuncts(g)):
+        s = z3.Solver()
+        s.set("timeout", timeout_ms)
+        s.add(axioms)
+        for h in vc.hyps:
+            s.add(h if isinstance(h, z3.ExprRef) else z3.BoolVal(bool(h)))
+        s.add(z3.Not(cj))
+        r = s.check()
+        if r == z3.unsat:
+            continue
+        where = f"conjunct {i}: {str(cj)[:160]}"
+        if r == z3.sat:
+            return "sat", s.model(), time.time() - t0, backend, where
+        detail = f"z3: unknown ({s.reason_unknown()}) on {where}"
         if use_cvc5 and os.path.exists("/usr/bin/cvc5"):
             r2 = cvc5_check(s, max(2000, timeout_ms // 2))
             detail += f"; cvc5: {r2}"
             if r2 == "unsat":
-                return "unsat", None, time.time() - t0, "cvc5", detail
-    return str(r), model, time.time() - t0, backend, detail
+                backend = "cvc5"
+                notes.append(f"conjunct {i} by cvc5")
+                continue
+        return "unknown", None, time.time() - t0, backend, detail
+    return "unsat", None, time.time() - t0, backend, "; ".join(notes)
 
 
 def cvc5_check(solver, timeout_ms):
